@@ -61,6 +61,9 @@ type ShipConnection struct {
 	// and before that state was entered
 	approvedEarly bool
 
+	// starting the handshake has to be done only once
+	startMux sync.Mutex
+
 	shutdownOnce sync.Once
 
 	// closing the data connection and reporting it has to happen exactly once
@@ -115,7 +118,8 @@ func (c *ShipConnection) DataHandler() api.WebsocketDataWriterInterface {
 
 // start SHIP communication
 func (c *ShipConnection) Run() {
-	c.handleShipMessage(false, nil)
+	// the handshake may have been started already by an incoming message
+	c.handshakeInit_cmiStateInitStart()
 }
 
 // provides the current ship state and error value if the state is in error
